@@ -67,3 +67,59 @@ def fix_once(src, args):
 def parses(src):
     toks, psig, _ = docprops.guarded_parse(src)
     return toks is not None
+
+
+# ---------------------------------------------------------------------------------------------- configured fixes
+def _fmt(v):
+    if isinstance(v, bool):
+        return f"$!{v}"
+    if isinstance(v, int):
+        return f"$#{v}"
+    return str(v)
+
+
+# (rule, documented configuration values, gate: the rule's construct may occur in the document)
+CFG_VARIANTS = [
+    ("md004", {"style": "asterisk"}, lambda s: re.search(r"^[ >]*[-+] ", s, re.M)),
+    ("md004", {"style": "plus"}, lambda s: re.search(r"^[ >]*[-*] ", s, re.M)),
+    ("md004", {"style": "sublist"}, lambda s: re.search(r"^ +[-+*] ", s, re.M)),
+    ("md007", {"indent": 4}, lambda s: re.search(r"^ +[-+*] ", s, re.M)),
+    ("md007", {"start_indented": True}, lambda s: re.search(r"^[-+*] ", s, re.M)),
+    # (md009 strict / br_spaces are left out: whether removing the spaces of a hard line break the user configured away
+    #  counts as a style change is not something the property or the rule documentation decides)
+    ("md010", {"code_blocks": False}, lambda s: "\t" in s),
+    ("md012", {"maximum": 2}, lambda s: re.search(r"\n[ >]*\n[ >]*\n", s)),
+    ("md012", {"maximum": 3}, lambda s: re.search(r"\n[ >]*\n[ >]*\n[ >]*\n", s)),
+    ("md029", {"style": "one"}, lambda s: re.search(r"^[ >]*\d+[.)] ", s, re.M)),
+    ("md029", {"style": "ordered"}, lambda s: re.search(r"^[ >]*\d+[.)] ", s, re.M)),
+    ("md029", {"style": "zero"}, lambda s: re.search(r"^[ >]*\d+[.)] ", s, re.M)),
+    ("md030", {"ul_single": 2, "ol_single": 2}, lambda s: re.search(r"^[ >]*(?:[-+*]|\d+[.)]) ", s, re.M)),
+    ("md030", {"ul_multi": 3, "ol_multi": 2}, lambda s: re.search(r"^[ >]*(?:[-+*]|\d+[.)]) ", s, re.M)),
+    ("md031", {"list_items": False}, lambda s: "```" in s or "~~~" in s),
+    ("md035", {"style": "***"}, lambda s: re.search(r"^[ >]*([-_*])( ?\1){2,} *$", s, re.M)),
+    ("md035", {"style": "- - -"}, lambda s: re.search(r"^[ >]*([-_*])( ?\1){2,} *$", s, re.M)),
+    ("md044", {"names": "ParaGraph,ThIs"}, lambda s: re.search(r"(?i)paragraph|this", s)),
+    ("md044", {"names": "ParaGraph,ThIs", "code_blocks": False}, lambda s: re.search(r"(?i)paragraph|this", s)),
+    ("md046", {"style": "fenced"}, lambda s: re.search(r"^[ >]* {4}\S", s, re.M)),
+    ("md046", {"style": "indented"}, lambda s: "```" in s or "~~~" in s),
+    ("md048", {"style": "tilde"}, lambda s: "```" in s),
+    ("md048", {"style": "backtick"}, lambda s: "~~~" in s),
+]
+
+
+def cfg_configs_for(src):
+    """up to 3 configured single-rule fix variants whose construct occurs in the document, chosen by source hash"""
+    cands = [(r, c) for r, c, gate in CFG_VARIANTS if gate(src)]
+    if not cands:
+        return []
+    h = h64(src)
+    picked = []
+    for j in range(3):
+        r, c = cands[(h >> (7 * j)) % len(cands)]
+        name = "cfg:" + r + ":" + ",".join(f"{k}={v}" for k, v in sorted(c.items()))
+        if all(name != p[0] for p in picked):
+            args = rules_args([r])
+            for k, v in c.items():
+                args = args + ["--set", f"plugins.{r}.{k}={_fmt(v)}"]
+            picked.append((name, args, [r]))
+    return picked
